@@ -2,6 +2,7 @@ import TinsModel.Checksum.Verify
 import TinsModel.Checksum.SerLemmas
 import TinsModel.Checksum.Walk.Main
 import TinsModel.Wire.Derived.Examples
+import TinsModel.Wire.Derived.Wifi
 /-
   Property C05 — fields libtins derives are correct on the wire.  Theorems only; helper lemmas live in
   TinsModel/Checksum/Lemmas*.lean, the proofs of Part 1 / 2 in TinsModel/Checksum/Verify.lean (so that the lemma files about
@@ -1212,6 +1213,54 @@ theorem wire_pppoe_payload_length (cx : Ctx) (p : PPPoE) (h : p.Inv) (region : B
   Tins.Wire.Derived.wire_pppoe_payload_length cx p h region hreg h16 hne
 
 end WireL2
+
+section WireWifi
+open Tins Tins.Wire Tins.Wire.Wifi Tins.Wire.Derived
+
+/-- **`Utils::crc32` of the wire model is the IEEE 802.3 CRC-32** (through C05's `crc32_table_spec`). -/
+theorem wire_crc32_ieee (bs : Bytes) : Wifi.crc32 bs = (Tins.Ck.Spec.crcBitwise bs).toNat :=
+  Tins.Wire.Derived.wifi_crc32_ieee bs
+
+/-- **RadioTap `it_len`** is `header_size()`, for every option payload the RadioTap parser accepts. -/
+theorem wire_radiotap_it_len (cx : Ctx) (r : RadioTap) (hw : r.WF) (region : Bytes)
+    (hr : region.length = r.hdrSize + cx.innerSize + r.trl) (h16 : r.hdrSize < 65536) :
+    ∃ out, r.write cx region = .ok out ∧ out.length = region.length ∧ Dot11.leAt out 2 2 = r.hdrSize :=
+  Tins.Wire.Derived.wire_radiotap_it_len cx r hw region hr h16
+
+/-- **RadioTap FCS**: placed behind the inner region iff the FLAGS field has the FCS bit and there is an inner PDU, and then
+    it is the IEEE CRC-32 of exactly the inner region, least significant octet first. -/
+theorem wire_radiotap_fcs (cx : Ctx) (r : RadioTap) (hw : r.WF) (region : Bytes)
+    (ht : r.trlOut = .ok 4) (hne : cx.inners ≠ []) (hr : region.length = r.hdrSize + cx.innerSize + 4) :
+    ∃ out, r.write cx region = .ok out ∧
+      (out.drop r.hdrSize).take cx.innerSize = (region.drop r.hdrSize).take cx.innerSize ∧
+      out.drop (r.hdrSize + cx.innerSize)
+        = OutCursor.leBytes 4 (Tins.Ck.Spec.crcBitwise ((region.drop r.hdrSize).take cx.innerSize)).toNat :=
+  Tins.Wire.Derived.wire_radiotap_fcs cx r hw region ht hne hr
+
+theorem wire_radiotap_no_fcs (cx : Ctx) (r : RadioTap) (hw : r.WF) (region : Bytes) (t : Nat)
+    (ht : r.trlOut = .ok t) (hc : t = 0 ∨ cx.inners = []) (hr : r.hdrSize ≤ region.length) :
+    ∃ out, r.write cx region = .ok out ∧ out.drop r.hdrSize = region.drop r.hdrSize :=
+  Tins.Wire.Derived.wire_radiotap_no_fcs cx r hw region t ht hc hr
+
+/-- **EAPOL packet body length** (RC4 and RSN key frames). -/
+theorem wire_eapol_length (e : Eapol) (hw : e.WF) (region : Bytes) (hr : e.hdrSize ≤ region.length)
+    (h16 : region.length - 4 < 65536) :
+    ∃ out, e.write region = .ok out ∧ out.length = region.length ∧
+      Cursor.beNat ((out.drop 2).take 2) = out.length - 4 :=
+  Tins.Wire.Derived.wire_eapol_length e hw region hr h16
+
+/-- **802.3 length.** -/
+theorem wire_dot3_length (cx : Ctx) (d : L2.Dot3) (h : d.WF) (region : Bytes)
+    (hreg : region.length = 14 + cx.innerSize) (h16 : cx.innerSize < 65536) :
+    ∃ out, d.write cx region = .ok out ∧ out.length = region.length ∧
+      Cursor.beNat ((out.drop 12).take 2) = out.length - 14 :=
+  Tins.Wire.Derived.wire_dot3_length cx d h region hreg h16
+
+/-- non-vacuity: the default RadioTap object with the FCS flag is well formed and its trailer is the FCS -/
+example : (⟨[0, 0, 0, 0], Tins.Ck.Ser.radiotapPayload true⟩ : RadioTap).trl = 4 := by decide +kernel
+example : (Eapol.mk false [1, 3, 0, 0, 1] (List.replicate 43 0) [1, 2, 3]).hdrSize = 51 := by decide
+
+end WireWifi
 
 section WirePacket
 open Tins Tins.Wire Tins.Wire.Derived
